@@ -7,7 +7,7 @@ variants whose payload is ignored by layout (Ptr, Slice, FnPtr, Param) are check
 present with the shape the hand model in Model/Layout.v assumes; anything else (a new variant,
 a non-constant arm) raises ExtractError so that the tie is reported as broken.
 """
-import re
+import hashlib, json, os, re
 import extract
 from extract import ExtractError, rd, strip_comments, write_if_changed, HEADER, eval_const_expr
 
@@ -15,6 +15,14 @@ from extract import ExtractError, rd, strip_comments, write_if_changed, HEADER, 
 PRIMS = ["I8", "I16", "I32", "I64", "U8", "U16", "U32", "U64", "F32", "F64", "Bool", "Str",
          "Ptr", "FnPtr", "Slice", "Param", "Void"]
 RECURSIVE = ["Array", "Struct"]
+
+
+def side_path(kind):
+    """Files exchanged with tools/props/c18.py (executed table in, notes / phase order / message fragments out)."""
+    tag = "repo" if extract.REPO == "/repo" else "r" + hashlib.sha1(extract.REPO.encode()).hexdigest()[:10]
+    d = os.path.join(os.path.dirname(os.path.abspath(__file__)), "..", "..", ".cache")
+    os.makedirs(d, exist_ok=True)
+    return os.path.join(d, f"c18-{kind}-{tag}.json")
 
 
 def _body_of(text, header_re, what):
@@ -51,6 +59,29 @@ def _split_top(s, sep=","):
     return out
 
 
+def strip_comments_keep_strings(s):
+    """// and /* */ comments removed, string literals kept intact."""
+    out, i, n = [], 0, len(s)
+    while i < n:
+        c = s[i]
+        if c == '"':
+            j = i + 1
+            while j < n and s[j] != '"':
+                j += 2 if s[j] == "\\" else 1
+            out.append(s[i:j + 1])
+            i = j + 1
+        elif s.startswith("//", i):
+            while i < n and s[i] != "\n":
+                i += 1
+        elif s.startswith("/*", i):
+            j = s.find("*/", i + 2)
+            i = n if j < 0 else j + 2
+        else:
+            out.append(c)
+            i += 1
+    return "".join(out)
+
+
 def airtype_variants():
     txt = strip_comments(rd("air/src/lib.rs"))
     body = _body_of(txt, r"pub\s+enum\s+AirType\s*\{", "enum AirType in air/src/lib.rs")
@@ -65,7 +96,7 @@ def airtype_variants():
 def layout_table():
     txt = strip_comments(rd("air/src/layout.rs"))
     body = _body_of(txt, r"pub\s+fn\s+layout_of\s*\([^)]*\)\s*->\s*TypeLayout\s*\{", "fn layout_of in air/src/layout.rs")
-    mbody = _body_of(body, r"match\s+ty\s*\{", "`match ty` in layout_of")
+    mbody = _body_of(body, r"match\s+\*?\s*ty\s*\{", "`match ty` in layout_of")
     table, seen_rec = {}, set()
     # arms: pattern => expr  (expr is either `TypeLayout { size: c, align: c }` or a block)
     pos = 0
@@ -103,18 +134,19 @@ def layout_table():
             pos = q
         while pos < len(mbody) and mbody[pos] in ", \n\t":
             pos += 1
-        c = re.fullmatch(r"\s*TypeLayout\s*\{\s*size\s*:\s*([^,{}]+),\s*align\s*:\s*([^,{}]+?),?\s*\}\s*", expr)
+        c = None
+        mm = re.fullmatch(r"\s*(?:Ok\s*\()?\s*TypeLayout\s*\{([^{}]*)\}\s*\)?\s*", expr)
+        if mm:
+            fields = dict((k.strip(), v.strip()) for k, _, v in (part.partition(":") for part in mm.group(1).split(",") if part.strip()))
+            if set(fields) == {"size", "align"}:
+                c = (fields["size"], fields["align"])
         for v in variants:
             if v in RECURSIVE:
                 seen_rec.add(v)
-                if v == "Array" and not re.search(r"array_layout\s*\(\s*layout_of\s*\(\s*inner\s*\)\s*,\s*\*n\s*\)", expr):
-                    raise ExtractError("layout_of: Array arm is no longer `array_layout(layout_of(inner), *n)` (checked u32 size)")
-                if v == "Array":
-                    ab = _body_of(txt, r"fn\s+array_layout\s*\([^)]*\)\s*->\s*Option<TypeLayout>\s*\{", "fn array_layout in air/src/layout.rs")
-                    if not (re.search(r"checked_mul\s*\(\s*n\s*\)", ab) and "u32::try_from" in ab and re.search(r"align\s*:\s*\w+\.align\b", ab)):
-                        raise ExtractError("array_layout is no longer a checked u64 multiplication narrowed with u32::try_from, inheriting the element alignment")
-                if v == "Struct" and "panic!" not in expr:
-                    raise ExtractError("layout_of: Struct arm no longer panics (model assumes it needs program context)")
+                # the behaviour of the Array and Struct arms is tied by the QLayoutOf cases of hx_layout
+                # (grid over every element type), not by their text
+                if c:
+                    raise ExtractError(f"layout_of: the {v} arm became a constant; extend Model/Layout.v")
                 continue
             if v not in PRIMS:
                 raise ExtractError(f"layout_of: arm for unknown AirType variant {v}; extend Model/Layout.v")
@@ -122,11 +154,46 @@ def layout_table():
                 raise ExtractError(f"layout_of: arm for {v} is not a constant TypeLayout: {expr.strip()[:80]!r}")
             if v in table:
                 raise ExtractError(f"layout_of: duplicate arm for {v}")
-            table[v] = (eval_const_expr(c.group(1), {}, 32), eval_const_expr(c.group(2), {}, 32))
+            table[v] = (eval_const_expr(c[0], {}, 32), eval_const_expr(c[1], {}, 32))
     missing = [v for v in PRIMS if v not in table] + [v for v in RECURSIVE if v not in seen_rec]
     if missing:
         raise ExtractError(f"layout_of: no arm found for {missing} (wildcard arm or changed shape)")
     return table
+
+
+def phase_order(txt):
+    """Order in which try_compute_layouts runs its three phases (None when a phase is not called by
+    the name the model documents: then only the end-to-end tie speaks)."""
+    try:
+        body = _body_of(txt, r"pub\s+fn\s+try_compute_layouts\s*\([^)]*\)\s*->\s*Result<[^{]*\{", "try_compute_layouts")
+    except ExtractError:
+        return None
+    pos = [(body.find(n + "("), n) for n in ("detect_self_references", "topological_order", "struct_layout")]
+    if any(p < 0 for p, _ in pos):
+        return None
+    return [n for _, n in sorted(pos)]
+
+
+def message_fragments(txt):
+    """Longest literal fragment of the Display text of each LayoutError variant (used by the harness
+    to recognise the error kind behind compute_layouts' panic)."""
+    try:
+        body = _body_of(txt, r"impl\s+(?:std::)?fmt::Display\s+for\s+LayoutError\s*\{", "Display for LayoutError")
+    except ExtractError:
+        return {}
+    out = {}
+    kinds = {"InfiniteSize": "ODiagSelf", "RecursiveCycle": "ODiagCycle", "UnresolvedStruct": "OUnresolved", "TooLarge": "OTooLarge"}
+    arms = list(re.finditer(r"LayoutError::([A-Za-z0-9_]+)", body))
+    for i, m in enumerate(arms):
+        if m.group(1) not in kinds:
+            continue
+        seg = body[m.end(): arms[i + 1].start() if i + 1 < len(arms) else len(body)]
+        lits = re.findall(r'"((?:[^"\\]|\\.)*)"', seg)
+        frags = [f for lit in lits for f in re.split(r"\{[^}]*\}", lit)]
+        frags = [f.strip("` ") for f in frags if len(f.strip("` ")) >= 6]
+        if frags:
+            out[kinds[m.group(1)]] = max(frags, key=len)
+    return out
 
 
 @extract.register("LayoutTable")
@@ -135,7 +202,30 @@ def gen_layout_table():
     want = sorted(PRIMS + RECURSIVE)
     if sorted(variants) != want:
         raise ExtractError(f"AirType variants changed: got {sorted(variants)}, model knows {want}")
-    table = layout_table()
+    side = {"notes": []}
+    executed = None
+    if os.path.exists(side_path("executed")):
+        try:
+            executed = {k: tuple(v) for k, v in json.load(open(side_path("executed"))).items()}
+        except Exception:
+            executed = None
+    try:
+        table = layout_table()
+    except ExtractError as e:
+        # the arms of layout_of are no longer in a shape the text parser understands: that alone is
+        # not a defect.  Fall back to the table obtained by executing layout_of on every variant
+        # (hx_layout), and say so.
+        if not executed or sorted(executed) != sorted(PRIMS):
+            raise
+        table = dict(executed)
+        side["notes"].append(f"layout_of arms not parsed ({e}); table taken from executing layout_of")
+    if executed and any(tuple(table[k]) != tuple(executed.get(k, ())) for k in PRIMS):
+        diff = {k: (table[k], executed.get(k)) for k in PRIMS if tuple(table[k]) != tuple(executed.get(k, ()))}
+        raise ExtractError(f"table read from the source text differs from executing layout_of: {diff}")
+    ltxt = strip_comments_keep_strings(rd("air/src/layout.rs"))
+    side["phase_order"] = phase_order(ltxt)
+    side["fragments"] = message_fragments(ltxt)
+    json.dump(side, open(side_path("side"), "w"))
     out = [HEADER.format(src="air/src/layout.rs (layout_of) and air/src/lib.rs (AirType)"),
            "From Coq Require Import NArith.\n",
            "(* one constructor per AirType variant whose layout does not depend on other types *)\n",
